@@ -685,6 +685,11 @@ def run(ctx, report):
                     msig = [KIND_G.get(opm, 'reg from the %s file' % opm), KIND_E.get(adm, 'r/m with %s addressing (general registers)' % adm)]
                     if swap:
                         msig.reverse()
+                # a segment / lock / address-size prefix must not change the selection
+                r_seg = X.dis_mmx_modes(c.name, [0x64] + PBYTES[pk], bool(c.modifs.get(E['sw'])), digit=digit)
+                if r_seg != r:
+                    R5.violation(inst + ':seg', 'ssefile:prefix-sensitive:%s' % pk, 'with an additional segment prefix (64) the decoder selects %s for %s prefix %s instead of %s: the selection compares the '
+                                 'whole prefix list instead of the mandatory prefix' % (r_seg, kstr, pk, r), where(arch, chain), witness='64 f3 0f 7e 00 renders movq DWORD PTR fs:[eax], eax')
                 if sig_ok(msig, want):
                     R5.ok(inst, sample='%s %s: %s' % (kstr, npname, ','.join(msig)))
                 else:
@@ -692,10 +697,23 @@ def run(ctx, report):
                                  % (pk, kstr, npname, ','.join(msig), ' | '.join(','.join(a) for a in want), ent['line']), where(arch, chain),
                                  witness='66 0f d6 c1 renders movq ecx, xmm0' if kstr == '0F D6' else None)
 
+    strm = arch.method('x86_mn', '__str__')
+    pops = [n for n in walk_no_nested(strm) if isinstance(n, ast.Call) and u(n.func) == 'prefix.pop' and not n.args]
+    idx = [n for n in walk_no_nested(strm) if isinstance(n, ast.Call) and u(n.func) == 'mmx_prefixes.index']
+    if not idx:
+        raise AnalysisError('__str__: the mandatory-prefix lookup mmx_prefixes.index(..) was not found')
+    if pops:
+        R5.violation('__str__:mandatory-prefix', 'ssefile:__str__:pop', '__str__ takes the LAST prefix of an MMX/SSE instruction as its mandatory prefix (prefix.pop()): with a segment or lock prefix '
+                     'mmx_prefixes.index raises ValueError', where(arch, pops[0]), witness='str(dis(64 0f fc 00)) raises ValueError: 100 is not in list')
+    else:
+        R5.ok('__str__:mandatory-prefix', sample='__str__ selects the mandatory prefix among the 66/F2/F3 prefixes only')
+
 
 MUTANTS = [
-    ('sse-pi2ps-file', 'miasmx/arch/ia32_arch.py', "                        elif '#pi2ps' in m.name:\n                            self.opmode = xmm\n                            if read_prefix == [] or read_prefix == [0x66]:\n                                self.admode = mm", "                        elif '#pi2ps' in m.name:\n                            self.opmode = xmm\n                            if read_prefix == [] or read_prefix == [0x66]:\n                                self.admode = xmm", 'C01.D5'),
-    ('sse-digit-prefix', 'miasmx/arch/ia32_arch.py', "                    if read_prefix == []:\n                        self.admode = mm\n                    elif read_prefix == [0x66]:\n                        self.admode = xmm\n                re, modr", "                    if read_prefix == []:\n                        self.admode = xmm\n                    elif read_prefix == [0x66]:\n                        self.admode = mm\n                re, modr", 'C01.D5'),
+    ('sse-whole-prefix-list', 'miasmx/arch/ia32_arch.py', "            sse_prefix = [_ for _ in read_prefix if _ in mmx_prefixes[1:]]", "            sse_prefix = read_prefix", 'C01.D5'),
+    ('str-prefix-pop', 'miasmx/arch/ia32_arch.py', "            sse = [_ for _ in prefix if _ in mmx_prefixes[1:]]\n            if len(sse) == 0: p = 0\n            else:\n                p = sse[-1]\n                prefix.remove(p)", "            if len(prefix) == 0: p = 0\n            else: p = prefix.pop()", 'C01.D5'),
+    ('sse-pi2ps-file', 'miasmx/arch/ia32_arch.py', "                        elif '#pi2ps' in m.name:\n                            self.opmode = xmm\n                            if sse_prefix == [] or sse_prefix == [0x66]:\n                                self.admode = mm", "                        elif '#pi2ps' in m.name:\n                            self.opmode = xmm\n                            if sse_prefix == [] or sse_prefix == [0x66]:\n                                self.admode = xmm", 'C01.D5'),
+    ('sse-digit-prefix', 'miasmx/arch/ia32_arch.py', "                    if sse_prefix == []:\n                        self.admode = mm\n                    elif sse_prefix == [0x66]:\n                        self.admode = xmm\n                re, modr", "                    if sse_prefix == []:\n                        self.admode = xmm\n                    elif sse_prefix == [0x66]:\n                        self.admode = mm\n                re, modr", 'C01.D5'),
     ('s32-not-narrowed', 'miasmx/arch/ia32_arch.py', "                    if self.opmode !=u32:\n                        if dib == u32: dib = u16\n                        if dib == s32: dib = s16\n                    l = struct.calcsize", "                    if self.opmode !=u32 and dib == u32: dib = u16\n                    l = struct.calcsize", 'C01.D3'),
     ('narrow-by-admode', 'miasmx/arch/ia32_arch.py', "                    if self.opmode !=u32:\n                        if dib == u32: dib = u16\n                        if dib == s32: dib = s16\n                    l = struct.calcsize", "                    if self.admode !=u32:\n                        if dib == u32: dib = u16\n                        if dib == s32: dib = s16\n                    l = struct.calcsize", 'C01.D3'),
     ('sib-scale', 'miasmx/arch/ia32_arch.py', "                    sib_rez[index][i] += 2**ss\n", "                    sib_rez[index][i] += 2*ss\n", 'C01.D4'),
